@@ -419,6 +419,8 @@ class Client:
             login = login.encode("utf-8")
         if isinstance(password, str):
             password = password.encode("utf-8")
+        # RFC 5801 saslname: "=" and "," are escaped in the gs2 authorization identity
+        login = login.replace(b"=", b"=3D").replace(b",", b"=2C")
         token = b"n,a=" + login + b",\001auth=Bearer " + password + b"\001\001"
         token = base64.b64encode(token)
         code, data = self.__send_command("AUTHENTICATE", [b"OAUTHBEARER", token])
